@@ -5,8 +5,8 @@
 //   - windowOracle: the statement-level reading of "allowed only when the
 //     attached quota admits it" (is there ANY fixed-window limiter of max/window
 //     that could have produced this admission history?),
-//   - mirror: a step-by-step replica of what the gateway does today (quota slot
-//     reserved on arrival, heap ordered by (priority, enqueue stamp), blocked head
+//   - mirror: a step-by-step replica of what the gateway does today (quota consulted
+//     for the head of the heap only, heap ordered by (priority, enqueue stamp), blocked head
 //     re-enqueued). The mirror decides nothing about right or wrong: it only
 //     tells the controller which verdicts a tick must have signalled (so the
 //     controller waits for exactly those and never sleeps), and its two variants
@@ -165,8 +165,10 @@ func (m *mirror) takeAllowed(id string) bool {
 	return v
 }
 
-// arrival mirrors the system flow (the quota is consulted when the request arrives).
-func (m *mirror) arrival(id string, now time.Time) { m.inc(id, now) }
+// arrival: the quota's system flow (QuotaProcessorInc) has its logic switched off for a quota
+// that a processor references (Stream.disableQuotaProcessorLogic), so an arriving request does
+// not touch the quota; it is consulted only by the processing loop for the head of the heap.
+func (m *mirror) arrival(id string, now time.Time) {}
 
 // slotFree mirrors the local size check.
 func (m *mirror) slotFree() bool { return m.watch < m.size }
